@@ -135,6 +135,13 @@ def check(run):
     for i, s_ in enumerate(scns):
         if i % 3 == 1:
             s_["sched"] = True
+    # the process ends by itself in the middle of a backlog - a graceful stop, or the scheduler refusing a message - in its very first
+    # run (the one that creates the state file) and in a later one; deferred clean-ups run, unlike after a kill
+    for point in ("stop", "fail"):
+        for off in (0, 3, 9, 10, 25):
+            scns.append({"rounds": [{"append": 60, "kill": {"point": point, "off": off}}, {"append": 5, "clean": True}]})
+        scns.append({"rounds": [{"append": 30, "kill": {"point": "persisted", "off": 12}}, {"append": 40, "kill": {"point": point, "off": 33}},
+                                {"append": 5, "clean": True}]})
     scns.append({"sched": True, "rounds": [{"append": 5600, "clean": True}]})
     scns.append({"sched": True, "rounds": [{"append": 2600, "kill": {"point": "cb.ret", "off": 120}}, {"append": 40, "clean": True}]})
     spath = os.path.join(run.scratch, "scenarios.ndjson")
